@@ -5,6 +5,7 @@ from .common import *
 from .c02 import rounding, reads
 
 EXPLANATION = (
+    "Re-based during the build (DESIGN.md 4.31): R08.2/R08.3/R08.5/R08.6 are decided by abstract execution of ArrayMap.collect, SimulatedEBPF.__init__ and unpack on stated finite families of program hierarchies and formats (bounded, not a proof over all layouts). "
     "Decided: (R08.1) a single source of layout: program side and Python "
     "side both take (format, offset) from fmt_addr(), which returns the "
     "offset collect() stored under the descriptor's own name; (R08.2) the "
